@@ -264,6 +264,36 @@ func TestVerif_C17(t *testing.T) {
 	if t.Failed() {
 		return
 	}
+	if vfOnlySub("dict") {
+		// every literal of the code under test at the start of a file and behind a few kinds of
+		// leading junk (a line of text, 100 bytes and a line break, NULs, a 512-byte block)
+		sh, nsh := vfShard(), vfNShards()
+		leads := []string{"", "junk line\n", strings.Repeat("x", 100) + "\n", "\x00\x00\x00\x00", strings.Repeat("\x00", 512), "\r\n", "\x1b%-12345X@PJL JOB\r\n"}
+		tails := []string{"", "1.4\n%\xe2\xe3\xcf\xd3\n1 0 obj\n<< >>\nendobj\n", "\x00\x00\x00\x10\x00\x01binary tail\xff\xfe"}
+		idx := 0
+		for _, tok := range vfDictLits {
+			for li, lead := range leads {
+				for ti, tail := range tails {
+					idx++
+					if idx%nsh != sh {
+						continue
+					}
+					c := c17Case{X: vfB(lead + tok + tail)}
+					r := c17Check(c)
+					r.Labels = append(r.Labels, "dict")
+					vfStats.record(r, func() any { return map[string]any{"sub": "dict", "literal": vfQ([]byte(tok)), "lead": li, "tail": ti} })
+					if r.Err != nil {
+						vfEnumFail(t, "C17", "gen", c, r.Err)
+						return
+					}
+				}
+			}
+		}
+		vfStats.Subchecks["dict"] = fmt.Sprintf("%d source literals x %d leads x %d tails, all limits", len(vfDictLits), len(leads), len(tails))
+	}
+	if t.Failed() {
+		return
+	}
 	if vfOnlySub("seeds") {
 		// every seed header, all limits
 		sh, nsh := vfShard(), vfNShards()
